@@ -2,12 +2,12 @@
 # developer helper: neutral_tie_a.sh <patch.diff> -- does a (supposedly behaviour-preserving) patch disturb tie A?
 # Applies the patch to a scratch worktree of /repo, regenerates the Generated/*.v files into a scratch directory and
 # compares them with a generation from the clean tree.  Output: SAME | DIFFERENT <files> | ANCHOR-MISSING ...
-P=$(realpath "$1"); W=/tmp/neutral-wt-$$; A=/tmp/neutral-a-$$; B=/tmp/neutral-b-$$
+P=$(realpath "$1"); T=$(dirname "$(realpath "$0")")/gen_from_source.py; W=/tmp/neutral-wt-$$; A=/tmp/neutral-a-$$; B=/tmp/neutral-b-$$
 git -C /repo worktree add -q $W HEAD || exit 2
 mkdir -p $A $B
-VERIF_REPO=$W VERIF_GEN_OUT=$A python3 /verif/tools/gen_from_source.py 2>$A/err; ra=$?
+VERIF_REPO=$W VERIF_GEN_OUT=$A python3 $T 2>$A/err; ra=$?
 (cd $W && git apply "$P") || { echo "patch does not apply"; git -C /repo worktree remove --force $W; rm -rf $A $B; exit 2; }
-VERIF_REPO=$W VERIF_GEN_OUT=$B python3 /verif/tools/gen_from_source.py 2>$B/err; rb=$?
+VERIF_REPO=$W VERIF_GEN_OUT=$B python3 $T 2>$B/err; rb=$?
 if [ $rb -ne 0 ]; then echo "ANCHOR-MISSING (rc=$rb, clean rc=$ra):"; cat $B/err; else
   d=$(diff -rq -x err $A $B | awk '{print $2}' | xargs -n1 basename 2>/dev/null | tr '\n' ' ')
   [ -z "$d" ] && echo SAME || { echo "DIFFERENT $d"; diff -r -x err $A $B | head -${2:-20}; }
